@@ -5,6 +5,7 @@ from __future__ import annotations
 from .. import AnalysisError
 from .. import terms as T
 from ..mutants import M
+from ..model import walk_no_nested
 from ..spec import spec
 from .common import SELF, fold, loc_of, self_attr
 
@@ -140,6 +141,30 @@ def temp_rule(ctx):
                        "its target is the tempered density of a different temperature than the one the particles are distributed at", disc=where)
     ctx.floor("mutate call sites of the SMC driver", n_mut, 2)
 
+
+
+def names_rule(ctx):
+    """C05.names: every sample set a sampler builds -- in particular the one the kernel target hands to the user's prior and likelihood -- carries the run's
+    parameter names.  A set built without them has the default names x_0, x_1, ...: a prior or likelihood that looks its columns up by name
+    (samples.to_dict()["mass"]) then works for the initial population and raises inside the kernel target."""
+    import ast as _ast
+    repo = ctx.repo
+    base = repo.cls("aspire.samplers.base:Sampler")
+    n_sites = 0
+    for c in repo.subclasses(base):
+        for m in c.methods.values():
+            for n in walk_no_nested(m.node):
+                if isinstance(n, _ast.Call) and isinstance(n.func, _ast.Name) and n.func.id in ("Samples", "SMCSamples", "BaseSamples"):
+                    n_sites += 1
+                    kw = {k.arg: k.value for k in n.keywords}
+                    pv = kw.get("parameters")
+                    ok = (pv is not None and isinstance(pv, _ast.Attribute) and pv.attr == "parameters") or None in kw
+                    rank = sum(1 for o in walk_no_nested(m.node) if isinstance(o, _ast.Call) and isinstance(o.func, _ast.Name) and o.func.id == n.func.id and o.lineno < n.lineno)
+                    ctx.decide(ok, "C05.names", m.ident, loc_of(m, n), f"{n.func.id}(...) receives the run's parameter names",
+                               f"{n.func.id}(...) at line {n.lineno} is built without parameters=: the set handed to the user's prior / likelihood from here has the default names "
+                               "x_0, x_1, ..., while every other evaluation (initial population, mutate) passes the real names -- a callable that addresses its columns by name "
+                               "raises KeyError inside the kernel target only", disc=f"{n.func.id}#{rank}")
+    ctx.floor("sample-set constructions inside samplers (names)", n_sites, 9)
 
 
 def share_rule(ctx):
@@ -305,6 +330,7 @@ def run(ctx):
                 "calls the value of the last iteration -- e.g. the wrapper installed as the likelihood evaluates the prior, so the kernel target counts one term twice and drops the other") if lb else "",
                disc="late-binding")
 
+    names_rule(ctx)
     # the log|det dx/dz| term is the preconditioning transform's inverse log-Jacobian
     from ..report import reuse
     from . import c04
@@ -354,7 +380,7 @@ MUTANTS = [
     M("SMC target without NaN map", _B, "log_prob = update_at_indices(\n            log_prob, self.xp.isnan(log_prob), -self.xp.inf\n        )\n        return log_prob", "return log_prob", "C05.nan"),
     M("SMC NaN mapped to +inf", _B, "log_prob, self.xp.isnan(log_prob), -self.xp.inf", "log_prob, self.xp.isnan(log_prob), self.xp.inf", "C05.nan"),
     M("SMC target evaluates q at z", _B, "log_q = self.prior_flow.log_prob(samples.x)", "log_q = self.prior_flow.log_prob(z)", "C05.id", within="SMCSampler.log_prob"),
-    M("SMC target builds samples from z", _B, "samples = SMCSamples(x, xp=self.xp, beta=beta, dtype=self.dtype)", "samples = SMCSamples(z, xp=self.xp, beta=beta, dtype=self.dtype)", "C05.id"),
+    M("SMC target builds samples from z", _B, "samples = SMCSamples(\n            x,\n            xp=self.xp,\n            beta=beta,", "samples = SMCSamples(\n            z,\n            xp=self.xp,\n            beta=beta,", "C05.id"),
     M("blackjax target drops Jacobian", _BJ, ").flatten() + samples.array_to_namespace(log_abs_det_jacobian)", ").flatten()", "C05.id"),
     M("blackjax NaN map inverted", _BJ, "self.xp.isnan(log_prob), -self.xp.inf, log_prob", "self.xp.isnan(log_prob), log_prob, -self.xp.inf", "C05.nan"),
     M("blackjax wrapper ignores beta", _BJ, "log_prob = self.log_prob(z_expanded, beta=beta)", "log_prob = self.log_prob(z_expanded, beta=1.0)", "C05.id"),
@@ -380,6 +406,10 @@ MUTANTS += [
 MUTANTS += [
     M("preconditioning flow reuses the proposal flow's data transform", "src/aspire/transforms.py", "self._data_transform = transform\n", "self._data_transform = kwargs.pop(\"data_transform\", None) or transform\n", "C05.share"),
 ]
+MUTANTS += [
+    M("kernel target builds its sample set without the parameter names", _B, "beta=beta,\n            dtype=self.dtype,\n            parameters=self.parameters,\n        )\n        log_q = self.prior_flow.log_prob(samples.x)", "beta=beta,\n            dtype=self.dtype,\n        )\n        log_q = self.prior_flow.log_prob(samples.x)", "C05.names"),
+]
+
 NEUTRALS = [
     M("kernel target compiled afresh in every mutation step", "src/aspire/samplers/smc/blackjax.py", "log_prob_fn = partial(self._jax_log_prob, beta=beta)",
       "self._compiled = jax.jit(self._jax_log_prob)\n        log_prob_fn = partial(self._compiled, beta=beta)"),
